@@ -4,6 +4,7 @@ import (
 	"encoding/json"
 	"fmt"
 	"math/rand"
+	"strings"
 	"time"
 
 	"verifharness/core"
@@ -65,6 +66,7 @@ func apiRun(c *core.Ctx, k apiCase, prop string) {
 	if k.UDP {
 		w.Net.Plan = k.Faults.Plan("10.8.0.1:8964")
 	}
+	t0 := time.Now().Add(-time.Second)
 	tr := sim.RunTransfer(w, k.Scripts, k.Seed, 120*time.Second)
 	if tr.Stalled {
 		w2, err := sim.NewAPIWorld(cfg, k.NoWait)
@@ -87,12 +89,36 @@ func apiRun(c *core.Ctx, k apiCase, prop string) {
 		mode = "no-wait"
 	}
 	c.Hist("api_stage", fmt.Sprintf("%s/%s", map[bool]string{true: "udp", false: "tcp"}[k.UDP], mode))
-	for _, f := range tr.Check(k.Scripts) {
-		kind := "delivery"
-		if tr.Stalled {
-			kind = "stall"
+	if prop != "C13" {
+		for _, f := range tr.Check(k.Scripts) {
+			kind := "delivery"
+			if tr.Stalled {
+				kind = "stall"
+			}
+			c.Violate(fmt.Sprintf("%s/api/%s/%s", prop, mode, kind), f, k)
 		}
-		c.Violate(fmt.Sprintf("%s/api/%s/%s", prop, mode, kind), f, k)
+	}
+	if k.UDP {
+		// wire audit of the API-level run (the server application speaks right after Accept here)
+		view := &sim.World{Cfg: w.Cfg, Net: w.Net, Start: t0}
+		a := view.AuditUDP()
+		if prop == "C13" {
+			for _, x := range a.AckAhead {
+				c.Violate("C13/ack-ahead-of-receipt", x, k)
+			}
+			for _, x := range a.ContentDrift {
+				c.Violate("C13/retransmission-changed-content", x, k)
+			}
+			for _, x := range a.SeqGaps {
+				c.Violate("C13/sequence-numbers-not-consecutive", x, k)
+			}
+		}
+		for name, h := range a.Histories {
+			c.Compared()
+			if reply := c.Model.Ask("arq-run %s", strings.Join(h, " ")); !strings.HasPrefix(reply, "ok ") {
+				c.Disagree(prop+"/corr/arq-acceptor", fmt.Sprintf("history of %s (API stage) rejected by the model: %s", name, reply), k)
+			}
+		}
 	}
 }
 
@@ -104,6 +130,19 @@ func init() {
 			cases := make([]apiCase, n)
 			for i := range cases {
 				cases[i] = genAPICase(c.Rand, udp)
+			}
+			if prop == "C13" {
+				// many short sessions whose server application speaks the instant Accept returns
+				// (the SOCKS5 reply): the open response and the first data segment are numbered
+				// concurrently
+				k := genAPICase(c.Rand, true)
+				k.NoWait, k.Faults, k.Multiplex = false, sim.FaultSpec{Seed: 1}, 3
+				k.Scripts = nil
+				for j := 0; j < 60; j++ {
+					k.Scripts = append(k.Scripts, sim.Script{ClientWrites: []int{10}, ServerWrites: []int{200, 10}, MaxRead: 1500})
+				}
+				cases = append(cases, k)
+				n = len(cases)
 			}
 			core.Parallel(n, 8, func(i int) { apiRun(c, cases[i], prop) })
 			bgClose.Wait(30 * time.Second)
@@ -120,4 +159,5 @@ func init() {
 	}
 	reg("C01", false)
 	reg("C02", true)
+	reg("C13", true)
 }
